@@ -192,12 +192,32 @@ fn fam_lzma(ctx: &CaseCtx, cov: &mut Cov) -> CaseOut {
                         // next member in place (reset(None) keeps the size, reset(Some(..)) sets it)
                         if first.verdict.is_ok() && rng.chance(1, 2) {
                             let keep = rng.chance(1, 2);
-                            let _ = sut::guarded(|| d.reset(if keep { None } else { Some(Some(len)) }));
+                            // after reset(Some(size)) the next member is a DIFFERENT stream of a different
+                            // length (same properties); after reset(None) it must have the old size
+                            let other = if keep {
+                                None
+                            } else {
+                                let mut it2 = Interp::new();
+                                let n2 = if rng.chance(1, 8) { 0 } else { rng.range(1, 400) as usize };
+                                let prog2 = ProgGen::new().generate(&mut rng, &ProgParams::standard(n2, 4096), &mut it2);
+                                encode_valid(&prog2, props, &mut out)
+                            };
+                            let (f2, want2, expect2) = match &other {
+                                Some(e2) => {
+                                    let mut f2 = e2.payload.clone();
+                                    let w = f2.len();
+                                    f2.extend_from_slice(&t);
+                                    (f2, w, e2.output.clone())
+                                }
+                                None => (f.clone(), want, enc.output.clone()),
+                            };
+                            let len2 = expect2.len() as u64;
+                            let _ = sut::guarded(|| d.reset(if keep { None } else { Some(Some(len2)) }));
                             let sink2 = SharedSink::new();
-                            let c2 = sut::raw_lzma_decompress(&mut d, &f, rk, &sink2, &sut::new_obs(u64::MAX));
+                            let c2 = sut::raw_lzma_decompress(&mut d, &f2, rk, &sink2, &sut::new_obs(u64::MAX));
                             out.evals += 1;
-                            cov.name(if keep { "raw_decoder_second_member_after_reset(None)" } else { "raw_decoder_second_member_after_reset(Some(size))" }, 1);
-                            judge_exact(&mut out, cov, api, rk, &c2.verdict, c2.consumed, want, f.len(), &sink2.bytes(), &enc.output, &f);
+                            cov.name(if keep { "raw_decoder_second_member_after_reset(None)" } else if len2 > len { "raw_decoder_second_member_after_reset(Some(larger size))" } else if len2 < len { "raw_decoder_second_member_after_reset(Some(smaller size))" } else { "raw_decoder_second_member_after_reset(Some(same size))" }, 1);
+                            judge_exact(&mut out, cov, api, rk, &c2.verdict, c2.consumed, want2, f2.len(), &sink2.bytes(), &expect2, &f2);
                         }
                         (first, f, want)
                     }
